@@ -266,24 +266,81 @@ def run_verify_add(ctx, n):
             ctx.oracle(oid in snap, case, {"why": "an intact object was not added", "store": snap})
 
 
+def run_failed_add(ctx, n):
+    """an add that fails (vanished or unreadable source, as transfer() issues it: check_exists=False) over a tampered,
+    unprotected object: the failure must not turn the mismatching object into a valid one"""
+    from dvc_objects.errors import ObjectFormatError
+
+    rng = ctx.rng
+    for _ in range(n):
+        root = ctx.mkdtemp()
+        local = rng.random() < 0.5
+        with_state = rng.random() < 0.7
+        cfg = {}
+        st = None
+        if with_state:
+            from dvc_data.hashfile.state import State
+
+            st = State(root_dir=root, tmp_dir=os.path.join(root, "tmp"))
+            cfg["state"] = st
+        odb = stores.make_odb(os.path.join(root, "odb"), local=local, **cfg)
+        fs = stores.fs_local()
+        good = gen.rand_content(rng) + b"g"
+        oid = md5hex(good)
+        src = os.path.join(root, "payload")
+        with open(src, "wb") as f:
+            f.write(good)
+        odb.add(src, fs, oid)
+        op = obj_path(odb, oid)
+        os.chmod(op, 0o644)
+        kind_t = rng.choice(["append", "rewrite_same_len", "truncate"])
+        tamper(rng, op, kind_t, rng.choice([1_000_000, 30_000_000, 1_000_000_000]))
+        tampered = open(op, "rb").read()
+        how = rng.choice(["source_missing", "source_unreadable_dir"])
+        bad_src = os.path.join(root, "gone") if how == "source_missing" else root
+        errs = []
+        kind, res = safe_call(lambda: odb.add(bad_src, fs, oid, check_exists=False, on_error=lambda o, e: errs.append(type(e).__name__)))
+        case = {"failed_add": {"tamper": kind_t, "failure": how, "local": local, "state": with_state}}
+        ctx.case(case, nontrivial=True)
+        ctx.count("failed_add:%s" % how)
+
+        def verdict():
+            try:
+                odb.check(oid)
+                return "accepted"
+            except (ObjectFormatError, FileNotFoundError) as e:
+                return type(e).__name__
+
+        k2, v = safe_call(verdict)
+        k3, ex = safe_call(lambda: odb.exists(oid) if local else None)
+        still = os.path.exists(op) and open(op, "rb").read() == tampered
+        if st:
+            st.close()
+        ctx.oracle(not (tampered != good and still and (v == "accepted" or ex is True)), case,
+                   {"why": "after a failed add a tampered (mismatching, previously unprotected) object is reported as valid",
+                    "add": kind if kind != "ok" else errs, "check": v, "exists": ex, "mode": oct(os.stat(op).st_mode & 0o777) if os.path.exists(op) else None})
+
+
 def run(ctx):
     ctx.rule = (
         "stores of both classes with 2-4 file objects and a directory object, hash-state cache absent / warm (entry saved by add); "
         "histories of 3-8 steps of tampering (truncate, append, rewrite with same or different length, replace by rename; mode "
         "left writable or re-protected; mtime moved forward by 1 ms to 2.5 s relative to the previous one), check(), oids_exist(), and forced checkout of the "
-        "directory object before and after tampering; verifying add with corrupt sources and mismatching pre-existing objects. "
+        "directory object before and after tampering; verifying add with corrupt sources and mismatching pre-existing objects; adds that fail (source gone / unreadable, check_exists off as transfer issues them) over a tampered object. "
         "non-trivial = at least one tamper step"
     )
     ctx.assumptions = ["tampering is visible in (inode, mtime, size)", "a local object whose mode is exactly 0o444 is trusted without hashing (by design)"]
     for _ in range(ctx.n(140, 1800)):
         run_history(ctx)
     run_verify_add(ctx, ctx.n(80, 800))
+    run_failed_add(ctx, ctx.n(40, 400))
 
 
 def search(ctx):
     for _ in range(1500):
         run_history(ctx)
     run_verify_add(ctx, 600)
+    run_failed_add(ctx, 400)
 
 
 def replay(ctx, payload):
